@@ -164,6 +164,8 @@ def decode_literal(text, escape, wm, ws, quote, add_escaped, quoted):
             closed = True
             pos += len(quote)
             continue
+        if not quoted and quote and text.startswith(quote, pos):
+            return None, "bare-quote-character-in-unquoted-literal"  # it would open a quoted literal in the target language
         if wm and text.startswith(wm, pos):
             out.append(MULTI)
             pos += len(wm)
